@@ -35,6 +35,7 @@ func runC08(c *Ctx) {
 	c.cipherConstants()
 	// info strings over all byte values: every string reaches the program text escaped
 	c.templateEscaping(nil)
+	c.glyphNameShadowing()
 
 	// ---- eexec writer: encryption shape, decided through Write/Close on the evaluator (ext_b.go)
 	c.cipherWriterB()
@@ -245,6 +246,11 @@ func (c *Ctx) pfbFraming(info *types.Info) {
 			return sv{k: svTuple, tup: []sv{symV("n"), {k: svNil}}}, true
 		case strings.HasSuffix(n, "makeTemplateData"):
 			return sv{k: svAddr, s: "info"}, true
+		}
+		// a validation of the font (a method of the font without further arguments that returns
+		// only an error): the table describes a font the writer accepts
+		if sc := call.Common().StaticCallee(); sc != nil && c.inModule(sc) && sc.Signature.Recv() != nil && sc.Signature.Params().Len() == 0 && returnsError(sc) && sc.Signature.Results().Len() == 1 {
+			return sv{k: svNil}, true
 		}
 		return sv{}, false
 	}
